@@ -23,6 +23,13 @@ func actionSSA(p *core.Program, c cliCommand) *ssa.Function {
 		return nil
 	}
 	var found *ssa.Function
+	// a named function used as the action
+	if fd, ok := c.Action.Node.(*ast.FuncDecl); ok {
+		if obj, ok := c.Pkg.TypesInfo.Defs[fd.Name].(*types.Func); ok {
+			return p.SSA.FuncValue(obj)
+		}
+		return nil
+	}
 	var visit func(f *ssa.Function)
 	visit = func(f *ssa.Function) {
 		for _, a := range f.AnonFuncs {
